@@ -234,6 +234,7 @@ func Render(p *Prog, mod string) map[string]string {
 	units := []unit{
 		{"", "", fmt.Sprintf("p%d/defs.go", p.ID), PkgName(p.ID)},
 		{"", "other", fmt.Sprintf("p%d/other.go", p.ID), PkgName(p.ID)},
+		{"", "extra", fmt.Sprintf("p%d/extra.go", p.ID), PkgName(p.ID)},
 		{"sub", "", fmt.Sprintf("p%d/sub/sub.go", p.ID), "sub"},
 		{"twin", "", fmt.Sprintf("p%d/twin/sub/sub.go", p.ID), "sub"},
 		{"deep", "", fmt.Sprintf("p%d/deep/deep.go", p.ID), "deep"},
@@ -303,6 +304,7 @@ type Opts struct {
 	UnexportedMembers bool // union members whose Go name is unexported
 	NoMemberFirst     bool // no struct using union members before their unions
 	Deep              bool // a third package used by the root and by sub (a diamond of imports)
+	MixedArrays       bool // [3][]int next to [][3]int (C04 only)
 	CaseTwins         bool // two unions whose names differ only by letter case (C07 only: TypeScript / gounions names may clash)
 	DashTags bool // some fields tagged json:"-"
 	NoTwinPkg bool // no second imported package named like the first
@@ -455,6 +457,10 @@ func Random(id int, rng *rand.Rand, o Opts) *Prog {
 		// comes after a union field
 		ly := Slice(Ref("", "Shape"))
 		add(Decl{K: "named", Name: "Layers", File: "other", Under: &ly})
+		// a member of the union declared in the other file: analysed from that file alone it implements nothing
+		add(Decl{K: "struct", Name: "Oval", File: "other", Fields: []Field{{Name: "A", Type: Basic("int")}, {Name: "B", Type: Basic("int")}}, Methods: []Method{{Name: "isShape"}}})
+		// (a third file of the package, analysable on its own: nothing there reaches Thing)
+		add(Decl{K: "struct", Name: "Token", File: "extra", Fields: []Field{{Name: "Text", Type: Basic("string")}}, Methods: []Method{{Name: "isThing"}}})
 		add(Decl{K: "struct", Name: "AfterUnion", Fields: []Field{{Name: "First", Type: Ref("", "Shape")}, {Name: "Then", Type: Ref("", "Layers")}}})
 		if o.TagOptions {
 			// a struct with a union field (so that gounions wraps it) whose siblings carry json tag options
@@ -497,6 +503,10 @@ func Random(id int, rng *rand.Rand, o Opts) *Prog {
 	// containers of anonymous containers
 	add(Decl{K: "struct", Name: "Nested", Fields: []Field{{Name: "Cells", Type: Slice(Map(Basic("string"), Basic("int")))}, {Name: "Grid", Type: Slice(Slice(Basic("int")))},
 		{Name: "ByKey", Type: Map(Basic("string"), Slice(Basic("string")))}, {Name: "Deep", Type: Map(Basic("string"), Map(Basic("string"), Basic("bool")))}}})
+	if o.MixedArrays {
+		// a fixed array of slices next to a slice of fixed arrays (the TypeScript generator refuses the former)
+		add(Decl{K: "struct", Name: "MixedRows", Fields: []Field{{Name: "RowsA", Type: Array(3, Slice(Basic("int")))}, {Name: "RowsB", Type: Slice(Array(3, Basic("int")))}}})
+	}
 	if o.Pointers {
 		// a pointer to a named type that is analysed / generated BEFORE the struct holding the pointer
 		add(Decl{K: "struct", Name: "Leafy", Fields: []Field{{Name: "V", Type: Basic("int")}, {Name: "S", Type: Basic("string")}}})
